@@ -228,6 +228,16 @@ async def stop_daemons(
     """
     delays: list[float] = []
     now = asyncio.get_running_loop().time()
+
+    # Whatever happens with other flags & logs & timings, this flag must be surely set. And for all
+    # the daemons before waiting for any of them: if this routine is interrupted while it waits
+    # (e.g. cancelled when the operator exits), then no daemon is left unaware & running.
+    freshly_stopped: list[Daemon] = []
+    for daemon in list(daemons.values()):
+        if not daemon.stopper.is_set(reason=reason):
+            daemon.stopper.set(reason=reason)
+            freshly_stopped.append(daemon)
+
     for daemon in list(daemons.values()):
         logger = daemon.logger
         stopper = daemon.stopper
@@ -246,9 +256,7 @@ async def stop_daemons(
             case _:
                 raise RuntimeError(f"Unsupported daemon handler: {handler!r}")
 
-        # Whatever happens with other flags & logs & timings, this flag must be surely set.
-        if not stopper.is_set(reason=reason):
-            stopper.set(reason=reason)
+        if any(daemon is stopped for stopped in freshly_stopped):
             await _wait_for_instant_exit(settings=settings, daemon=daemon)
 
         # Try different approaches to exiting the daemon based on timings.
